@@ -220,32 +220,51 @@ def check_member_sets(chk, prog):
 
 
 def check_exporter_inverse(chk, prog):
-    """tools/key2jwk.c get_one_bn / get_one_octet argument pairs are the inverse of the importer's maps"""
-    u = prog.unit('tools/key2jwk.c')
+    """tools/key2jwk.c: the (parameter, member) pairs handed to get_one_bn / get_one_octet, collected by interpreting the three
+    exporters for a private key, are the inverse of the importer's maps"""
+    from interp import Unsupported
+    unit = 'tools/key2jwk.c'
     n = 0
     bad = 0
-    pairs = {}
-    for fname, f in u.funcs.items():
-        stack = [f]
-        while stack:
-            x = stack.pop()
-            if x.get('kind') == 'CallExpr':
-                c = _strip(x['inner'][0])
-                nm = c.get('referencedDecl', {}).get('name') if c.get('kind') == 'DeclRefExpr' else None
-                if nm in ('get_one_bn', 'get_one_octet'):
-                    pairs.setdefault(fname, []).append((literal_args(x, 3), literal_args(x, 1), nm))
-            for c in x.get('inner', ()):
-                if isinstance(c, dict):
-                    stack.append(c)
     want = {'process_rsa_key': (RSA_MAP, 'get_one_bn'), 'process_ec_key': (EC_EXPORT, 'get_one_bn'), 'process_eddsa_key': (OKP_MAP, 'get_one_octet')}
-    for fn, (mp, getter) in want.items():
-        got = {m: p for m, p, g in pairs.get(fn, [])}
-        for m, p in mp.items():
+    model = build_model()
+    for fn, (mp, getter) in sorted(want.items()):
+        prog.func(unit, fn)
+        pairs = []
+
+        def h_get(it, st, args, node):
+            pairs.append((args[3], args[1]))
+            return [(st, Int(0))]
+
+        def h_size(it, st, args, node):
+            if len(args) > 2 and isinstance(args[2], Ref):
+                it.store(st, args[2].loc, args[2].path, Term(('bits',)))
+            return [(st, Int(1))]
+        one = lambda it, st, a, nd: [(st, Int(1))]
+        zero = lambda it, st, a, nd: [(st, Int(0))]
+        hooks = {'get_one_bn': h_get, 'get_one_octet': h_get, 'EVP_PKEY_get_size_t_param': h_size, 'EVP_PKEY_get_group_name': one,
+                 'json_object_set_new': zero, 'json_string': lambda it, st, a, nd: [(st, Term(('js',), ptr=True))],
+                 'strcmp': lambda it, st, a, nd: [(st, Term(('strcmpres', nd.get('_l'))))], 'strcpy': lambda it, st, a, nd: [(st, a[0])],
+                 'fprintf': zero}
+
+        class R(Rule):
+            alloc_may_fail = False
+        for priv in (0, 1):
+            it = Interp(prog, unit, model=model, rule=R(), hooks=hooks)
+            it.run(fn, [Term(('pkey',), ptr=True), Int(priv), Term(('jwk',), ptr=True)], State())
+        got = {}
+        for m, p_ in pairs:
+            if not isinstance(m, Str) or not isinstance(p_, Str):
+                raise Unsupported('%s: exporter member/parameter names are not constant strings (%r, %r)' % (fn, m, p_))
+            got[m.text().split('\0')[0]] = p_.text().split('\0')[0]
+        if not got:
+            raise AnalysisBroken('key2jwk: %s exports nothing through %s' % (fn, getter))
+        for m, p_ in mp.items():
             n += 1
-            if got.get(m) != p:
+            if got.get(m) != p_:
                 bad += 1
-                chk.add(Finding('C08.exporter-inverse', 'tools/key2jwk.c', fn, 'export[%s]' % m,
-                                'key2jwk writes member "%s" from parameter %r; the importer\'s inverse map requires %r' % (m, got.get(m), p)))
+                chk.add(Finding('C08.exporter-inverse', unit, fn, 'export[%s]' % m,
+                                'key2jwk writes member "%s" from parameter %r; the importer\'s inverse map requires %r' % (m, got.get(m), p_)))
     chk.rule('C08.exporter-inverse', 'key2jwk exports each member from the parameter the importer feeds it into (sibling cross-check)', n, bad, floor=12)
 
 
